@@ -23,7 +23,7 @@ use pre::*;
 
 //@include prelude/db_specs.rs
 
-broadcast use {axiom_has_parent_nonempty, axiom_str_as_path, axiom_path_as_path};
+broadcast use {axiom_has_parent_nonempty, axiom_str_as_path, axiom_path_as_path, axiom_vp_le_usize};
 
 impl FixtureDatabase {
     /// the part of the database compute_available_fixtures depends on
@@ -46,6 +46,9 @@ impl FixtureDatabase {
 @tags C05 C18 C08
 @ret r
 @rename sort_by vp_sort_by
+@rename filter vp_filter
+@closure filter:1 |def: &&FixtureDefinition| -> (b: bool) ensures b == (pbv(&def.file_path) == pv(file_path))
+@closure 2 |def: &&FixtureDefinition| -> (k: usize) ensures k == def.line
 @closure sort_by:1 |a: &FixtureDefinition, b: &FixtureDefinition| -> (o: core::cmp::Ordering) ensures o == name_cmp()(*a, *b)
 @sig
     requires wf_names(self.defs()),
@@ -73,47 +76,63 @@ impl FixtureDatabase {
         forall|key: Seq<char>| m0.contains_key(key) ==> exists|j: int| 0 <= j < it.seq().len() && (#[trigger] it.seq()[j]).k@ == key,
         forall|j: int| 0 <= j < it.index@ ==> done.contains((#[trigger] it.seq()[j]).k@),
         step_inv(pick, dvs(available_fixtures@), seen_names.s(), done, curf, nxtf),
-        phase_rel(v, curf, cond, nxtf),
-@loopend 1
-    proof {
-        let nm = entry.k@;
-        if !seen_names.s().contains(nm) {
-            let ds = bucket(v.defs, nm);
-            assert forall|j: int| 0 <= j < ds.len() implies !cond(#[trigger] ds[j]) by { let y = entry.v@[j]; }
-        }
-        lemma_scan_done(v, pick, dvs(available_fixtures@), seen_names.s(), done, curf, nxtf, cond, nm);
-        done = done.insert(nm);
-    }
-@loopvar 2 it2
-@loop 2
-    invariant
-        cond == p_same(file, fs_true()),
-        wf_names(self.defs()), m0 == self.definitions.m(), v == self.avv(), file == pv(file_path), pick == rf_pick(v, file),
-        m0.contains_key(entry.k@), *entry.v == m0[entry.k@], fixture_name@ == entry.k@,
-        it2.seq() == entry.v@.as_ref(),
-        step_inv(pick, dvs(available_fixtures@), seen_names.s(), done, curf, nxtf),
-        phase_rel(v, curf, cond, nxtf),
-        !seen_names.s().contains(entry.k@) ==> forall|i: int| 0 <= i < it2.index@ ==> !cond(dv(&(#[trigger] entry.v@[i]))),
-@before push 1
+        phase_rel_best(v, curf, cond, nxtf),
+        // this phase starts with an empty list and visits every key once: a visited name is never met again
+        // (the `!seen_names.contains(..)` test of this phase is always true — the proof does not rely on it)
+        forall|i: int, j: int| 0 <= i < j < it.seq().len() ==> (#[trigger] it.seq()[i]).k@ != (#[trigger] it.seq()[j]).k@,
+        forall|n: Seq<char>| seen_names.s().contains(n) ==> done.contains(n),
+        forall|n: Seq<char>| done.contains(n) ==> exists|j: int| 0 <= j < it.index@ && (#[trigger] it.seq()[j]).k@ == n,
+@loopstart 1
+    let ghost nm = entry.k@;
     let ghost av0 = dvs(available_fixtures@);
     let ghost seen0 = seen_names.s();
+    let ghost mut bi: int = 0;
+@before push 1
+    proof {
+        // `def` is what `.filter(same file).max_by_key(line)` returned: the last same-file definition of maximal line
+        if seen0.contains(nm) {
+            assert(done.contains(nm));
+            let j = choose|j: int| 0 <= j < it.index@ && (#[trigger] it.seq()[j]).k@ == nm;
+            assert(0 <= j < it.index@ && it.seq()[j].k@ == nm);
+            assert(it.index@ < it.seq().len());
+            assert(it.seq()[it.index@ as int].k@ == nm);
+            assert(it.seq()[j].k@ != it.seq()[it.index@ as int].k@);
+        }
+        assert(!seen0.contains(nm));
+        let s = entry.v@.as_ref();
+        let i = vp_witness(s, def);
+        let ds = v.defs[nm];
+        assert(ds == dvs(entry.v@));
+        assert forall|j: int| 0 <= j < ds.len() && cond(#[trigger] ds[j]) implies ds[j].line <= ds[i].line by { let y = s[j]; }
+        assert forall|j: int| i < j < ds.len() && cond(#[trigger] ds[j]) implies ds[j].line < ds[i].line by { let y = s[j]; }
+        assert(ds[i] == dv(def));
+        assert(is_best(ds, cond, i));
+        lemma_best_push(v, pick, av0, seen0, done, curf, nxtf, cond, nm, i);
+        bi = i;
+    }
 @after insert 1
     proof {
-        let nm = entry.k@; let i = it2.index@ as int;
-        assert(entry.v@[i] == *def);
-        assert(v.defs[nm] == dvs(entry.v@));
-        assert forall|j: int| 0 <= j < i implies !cond(#[trigger] v.defs[nm][j]) by { let y = entry.v@[j]; }
-        assert(is_first(v.defs[nm], cond, i));
-        lemma_scan_push(v, pick, av0, seen0, done, curf, nxtf, cond, nm, i);
-        assert(dvs(available_fixtures@) =~= av0.push(v.defs[nm][i]));
+        assert(dvs(available_fixtures@) =~= av0.push(v.defs[nm][bi]));
         assert(seen_names.s() == seen0.insert(nm));
+    }
+@loopend 1
+    proof {
+        if !seen_names.s().contains(nm) {
+            // nothing pushed and the name was not in the list before: max_by_key returned None
+            let ds = bucket(v.defs, nm);
+            let s = entry.v@.as_ref();
+            assert forall|j: int| 0 <= j < ds.len() implies !cond(#[trigger] ds[j]) by { let y = s[j]; }
+        }
+        lemma_best_done(v, pick, dvs(available_fixtures@), seen_names.s(), done, curf, nxtf, cond, nm);
+        done = done.insert(nm);
+        assert(it.seq()[it.index@ as int].k@ == nm);
     }
 @before current_dir 1
     proof {
-        lemma_scan_end(v, pick, dvs(available_fixtures@), seen_names.s(), done, curf, nxtf, cond);
+        lemma_best_end(v, pick, dvs(available_fixtures@), seen_names.s(), done, curf, nxtf, cond);
         lemma_walk_enter(v, pick, dvs(available_fixtures@), seen_names.s(), file);
     }
-@loop 3
+@loop 2
     invariant_except_break
         rest_inv(pick, dvs(available_fixtures@), seen_names.s(), rf_from_dir(v, pv(current_dir))),
     invariant
@@ -135,8 +154,8 @@ impl FixtureDatabase {
         }
         lemma_step_start(pick, dvs(available_fixtures@), seen_names.s(), curf, nxtf);
     }
-@loopvar 4 it
-@loop 4
+@loopvar 3 it
+@loop 3
     invariant
         dir == pv(current_dir), c == pbv(&conftest_path), c == conftest_of(dir), cond == p_same(c, fs_true()),
         wf_names(self.defs()), m0 == self.definitions.m(), v == self.avv(), file == pv(file_path), pick == rf_pick(v, file),
@@ -145,7 +164,7 @@ impl FixtureDatabase {
         forall|j: int| 0 <= j < it.index@ ==> done.contains((#[trigger] it.seq()[j]).k@),
         step_inv(pick, dvs(available_fixtures@), seen_names.s(), done, curf, nxtf),
         phase_rel(v, curf, cond, nxtf),
-@loopend 4
+@loopend 3
     proof {
         let nm = entry.k@;
         if !seen_names.s().contains(nm) {
@@ -155,8 +174,8 @@ impl FixtureDatabase {
         lemma_scan_done(v, pick, dvs(available_fixtures@), seen_names.s(), done, curf, nxtf, cond, nm);
         done = done.insert(nm);
     }
-@loopvar 5 it2
-@loop 5
+@loopvar 4 it2
+@loop 4
     invariant
         c == pbv(&conftest_path), cond == p_same(c, fs_true()),
         wf_names(self.defs()), m0 == self.definitions.m(), v == self.avv(), file == pv(file_path), pick == rf_pick(v, file),
@@ -184,7 +203,7 @@ impl FixtureDatabase {
         lemma_scan_end(v, pick, dvs(available_fixtures@), seen_names.s(), done, curf, nxtf, cond);
         if !av_gate(v, c) { lemma_imp_closed(v, pick, dvs(available_fixtures@), seen_names.s(), dir); }
     }
-@before for 5
+@before for 4
     let ghost imps = (v.imp)(c);
     proof {
         assert(av_gate(v, c));
@@ -192,8 +211,8 @@ impl FixtureDatabase {
         done = Set::empty();
         lemma_step_start(pick, dvs(available_fixtures@), seen_names.s(), rf_dir_imp(v, dir), rf_dir_par(v, dir));
     }
-@loopvar 6 it6
-@loop 6
+@loopvar 5 it6
+@loop 5
     invariant
         wf_names(self.defs()), m0 == self.definitions.m(), v == self.avv(), file == pv(file_path), pick == rf_pick(v, file),
         dir == pv(current_dir), c == conftest_of(dir), av_gate(v, c), imps == (v.imp)(c),
@@ -201,7 +220,7 @@ impl FixtureDatabase {
         forall|n: Seq<char>| imps.contains(n) ==> exists|j: int| 0 <= j < it6.seq().len() && (#[trigger] it6.seq()[j])@ == n,
         forall|j: int| 0 <= j < it6.index@ ==> done.contains((#[trigger] it6.seq()[j])@),
         step_inv(pick, dvs(available_fixtures@), seen_names.s(), done, rf_dir_imp(v, dir), rf_dir_par(v, dir)),
-@loopstart 6
+@loopstart 5
     let ghost nm = fixture_name@;
     let ghost av0 = dvs(available_fixtures@);
     let ghost seen0 = seen_names.s();
@@ -217,7 +236,7 @@ impl FixtureDatabase {
         assert(seen_names.s() == seen0.insert(nm));
         pushed = true;
     }
-@loopend 6
+@loopend 5
     proof {
         if !pushed {
             assert(dvs(available_fixtures@) == av0 && seen_names.s() == seen0);
@@ -226,11 +245,11 @@ impl FixtureDatabase {
         }
         done = done0.insert(nm);
     }
-@after for 5
+@after for 4
     proof { lemma_imp_end(v, pick, dvs(available_fixtures@), seen_names.s(), done, dir); }
 @before parent 2
     proof { lemma_walk_next(v, pick, dvs(available_fixtures@), seen_names.s(), dir); }
-@before for 6
+@before for 5
     let ghost cond = p_plugin(fs_true());
     let ghost curf = rf_plugin(v);
     let ghost nxtf = rf_third(v);
@@ -238,8 +257,8 @@ impl FixtureDatabase {
         done = Set::empty();
         lemma_step_start(pick, dvs(available_fixtures@), seen_names.s(), curf, nxtf);
     }
-@loopvar 7 it
-@loop 7
+@loopvar 6 it
+@loop 6
     invariant
         cond == p_plugin(fs_true()),
         wf_names(self.defs()), m0 == self.definitions.m(), v == self.avv(), file == pv(file_path), pick == rf_pick(v, file),
@@ -248,7 +267,7 @@ impl FixtureDatabase {
         forall|j: int| 0 <= j < it.index@ ==> done.contains((#[trigger] it.seq()[j]).k@),
         step_inv(pick, dvs(available_fixtures@), seen_names.s(), done, curf, nxtf),
         phase_rel(v, curf, cond, nxtf),
-@loopend 7
+@loopend 6
     proof {
         let nm = entry.k@;
         if !seen_names.s().contains(nm) {
@@ -258,8 +277,8 @@ impl FixtureDatabase {
         lemma_scan_done(v, pick, dvs(available_fixtures@), seen_names.s(), done, curf, nxtf, cond, nm);
         done = done.insert(nm);
     }
-@loopvar 8 it2
-@loop 8
+@loopvar 7 it2
+@loop 7
     invariant
         cond == p_plugin(fs_true()),
         wf_names(self.defs()), m0 == self.definitions.m(), v == self.avv(), file == pv(file_path), pick == rf_pick(v, file),
@@ -282,7 +301,7 @@ impl FixtureDatabase {
         assert(dvs(available_fixtures@) =~= av0.push(v.defs[nm][i]));
         assert(seen_names.s() == seen0.insert(nm));
     }
-@before for 8
+@before for 7
     let ghost cond0 = cond;
     let ghost curf0 = curf;
     let ghost nxtf0 = nxtf;
@@ -294,8 +313,8 @@ impl FixtureDatabase {
         done = Set::empty();
         lemma_step_start(pick, dvs(available_fixtures@), seen_names.s(), curf, nxtf);
     }
-@loopvar 9 it
-@loop 9
+@loopvar 8 it
+@loop 8
     invariant
         cond == p_third(fs_true()),
         wf_names(self.defs()), m0 == self.definitions.m(), v == self.avv(), file == pv(file_path), pick == rf_pick(v, file),
@@ -304,7 +323,7 @@ impl FixtureDatabase {
         forall|j: int| 0 <= j < it.index@ ==> done.contains((#[trigger] it.seq()[j]).k@),
         step_inv(pick, dvs(available_fixtures@), seen_names.s(), done, curf, nxtf),
         phase_rel(v, curf, cond, nxtf),
-@loopend 9
+@loopend 8
     proof {
         let nm = entry.k@;
         if !seen_names.s().contains(nm) {
@@ -314,8 +333,8 @@ impl FixtureDatabase {
         lemma_scan_done(v, pick, dvs(available_fixtures@), seen_names.s(), done, curf, nxtf, cond, nm);
         done = done.insert(nm);
     }
-@loopvar 10 it2
-@loop 10
+@loopvar 9 it2
+@loop 9
     invariant
         cond == p_third(fs_true()),
         wf_names(self.defs()), m0 == self.definitions.m(), v == self.avv(), file == pv(file_path), pick == rf_pick(v, file),
@@ -338,7 +357,7 @@ impl FixtureDatabase {
         assert(dvs(available_fixtures@) =~= av0.push(v.defs[nm][i]));
         assert(seen_names.s() == seen0.insert(nm));
     }
-@after for 8
+@after for 7
     let ghost av_pre = available_fixtures@;
     proof { lemma_scan_end(v, pick, dvs(available_fixtures@), seen_names.s(), done, curf, nxtf, cond); }
 @before sort_by 1
@@ -429,9 +448,9 @@ pub open spec fn imports_consistent(db: &FixtureDatabase, n: Seq<char>) -> bool 
 }
 //@tags C05
 /// (b) stated on the database: what compute_available_fixtures lists for name n from `file` is what
-/// find_closest_definition(file, n) returns — under H1, H3, H4
+/// find_closest_definition(file, n) returns — under H3, H4 (no hypothesis on how often the file defines n)
 pub proof fn lemma_C05_b_db(db: &FixtureDatabase, file: PV, n: Seq<char>)
-    requires at_most_one_in(bucket(db.defs(), n), file), imports_consistent(db, n), pv_has_parent(file) && file.len() > 0,
+    requires imports_consistent(db, n), pv_has_parent(file) && file.len() > 0,
     ensures avail_pick(db.avv(), file, n) == op_resolve(bucket(db.defs(), n), file, db.prov(n), fs_true())
 {
     let v = db.avv(); let prov = db.prov(n);
